@@ -101,6 +101,11 @@ U_C02_Pos(zz) ==
                MvField(U1("z"), [kind |-> "shift", arg |-> SzConst(sh), ref |-> "current-offset"]), EmF("tail")>>, "full", FALSE) :
               al \in {2, 4}, sh \in {0, 2}}
     \cup {V1(BitFields(<<4, 4>>) \o <<U1("z")>>, "full", TRUE), V1(BitFields(<<3, 10, 3>>), "full", TRUE)}
+    \* a class-wide alignment next to own modifiers whose argument is zero
+    \cup {VDecl([C0 |-> Class([DefaultOpts EXCEPT !.align = 2], <<MvField(U1("a"), [kind |-> "at", arg |-> SzConst(4), ref |-> "innermost-pkt"]),
+                                                                  MvField(U1("b"), [kind |-> "at", arg |-> SzConst(0), ref |-> "innermost-pkt"]),
+                                                                  MvField(U1("c"), [kind |-> "shift", arg |-> SzConst(0), ref |-> "current-offset"]),
+                                                                  IntF("d", 2, FALSE, "default")>>)], "full", 1, FALSE)}
     \* per-element alignment of repeated fields, counted and until-terminated
     \cup {VDecl([C0 |-> Class(DefaultOpts, <<U1("t"), RepUntilF("r", U1("e"), u, NoCond, al), U1("z")>>)], "full", 0, FALSE) :
              u \in UntilInt, al \in {2, 3}}
